@@ -67,11 +67,14 @@ theorem specDivCore_val18 (tm : Mode) (a : Int) (p : Nat) (b : Int) (q : Nat) (c
   rw [valFit_eq]
   constructor <;> intro h <;> (split at h <;> [skip; split at h]) <;> simp at h <;> omega
 
-/-- `divCore` (kernel with n = 18, then normalize) -/
-theorem divCore_spec (hw : C04.WideDiv) (prof : Profile) (tm : Mode) (a : Int) (p : Nat) (b : Int) (q : Nat)
-    (ha : I128_MIN < a ∧ a ≤ I128_MAX) (hb : I128_MIN ≤ b ∧ b ≤ I128_MAX) (hb0 : b ≠ 0) (hp : p ≤ 18) (hq : q ≤ 18) :
+/-- `divCore` (kernel with n = 18, then normalize), for EVERY i128 dividend (`i128::MIN` included: an integer operand, `p = 0`);
+    the side condition excludes `i128::MIN` with 18 fractional digits over `-1` — not a `Decimal` — where the dividend would not be
+    scaled and `i128::MIN / -1` is evaluated (`C04.checkedDivRounded_min_neg_one`) -/
+theorem divCore_spec_full (hw : C04.WideDiv) (prof : Profile) (tm : Mode) (a : Int) (p : Nat) (b : Int) (q : Nat)
+    (ha : I128_MIN ≤ a ∧ a ≤ I128_MAX) (hb : I128_MIN ≤ b ∧ b ≤ I128_MAX) (hb0 : b ≠ 0) (hp : p ≤ 18) (hq : q ≤ 18)
+    (hc : ¬ (a = I128_MIN ∧ b = -1 ∧ 18 + q ≤ p)) :
     Spec.allowedChecked (specDivTail tm a p b q) (outOptPair (divCore prof tm a p b q)) = true := by
-  have hk := C04.checkedDivRounded_spec hw prof tm a p b q 18 ha hb hb0 hp hq (by omega)
+  have hk := C04.checkedDivRounded_spec hw prof tm a p b q 18 ha hb hb0 hp hq (by omega) hc
   unfold divCore specDivTail
   simp only [max_nfrac]
   generalize C04.specDivCore tm a p b q 18 = e at hk ⊢
@@ -100,6 +103,12 @@ theorem divCore_spec (hw : C04.WideDiv) (prof : Profile) (tm : Mode) (a : Int) (
       | nfrac => simp [C04.outOptInt, Spec.allowedChecked] at hk
       | none => simp [C04.outOptInt, Spec.allowedChecked] at hk
       | any => simp [Spec.allowedChecked]
+
+/-- `divCore_spec_full` for a dividend of the Decimal coefficient range -/
+theorem divCore_spec (hw : C04.WideDiv) (prof : Profile) (tm : Mode) (a : Int) (p : Nat) (b : Int) (q : Nat)
+    (ha : I128_MIN < a ∧ a ≤ I128_MAX) (hb : I128_MIN ≤ b ∧ b ≤ I128_MAX) (hb0 : b ≠ 0) (hp : p ≤ 18) (hq : q ≤ 18) :
+    Spec.allowedChecked (specDivTail tm a p b q) (outOptPair (divCore prof tm a p b q)) = true :=
+  divCore_spec_full hw prof tm a p b q ⟨Int.le_of_lt ha.1, ha.2⟩ hb hb0 hp hq (fun h => by omega)
 
 theorem spec_div_tail (tm : Mode) (a : Int) (p : Nat) (b : Int) (q : Nat) (hb : b ≠ 0) (ha : a ≠ 0)
     (h1 : ¬ b = (10 : Int) ^ q) : Spec.div tm a p b q = specDivTail tm a p b q := by
@@ -178,9 +187,10 @@ theorem div_dec_int_spec (hw : C04.WideDiv) (prof : Profile) (tm : Mode) (x : De
       rw [spec_div_tail tm a p i 0 hi0 ha0 h1']
       exact divCore_spec hw prof tm a p i 0 ⟨hx.1, hx.2.1⟩ hi hi0 hx.2.2 (by omega)
 
-/-- `int / Decimal` and `int.checked_div(Decimal)` after the zero-divisor test -/
+/-- `int / Decimal` and `int.checked_div(Decimal)` after the zero-divisor test; `i` any value of the 9 integer types, `i128::MIN`
+    included (its scaling by `10^18` always goes through the 256-bit path, so `i128::MIN / -1` is never evaluated: `None` / overflow panic) -/
 theorem div_int_dec_spec (hw : C04.WideDiv) (prof : Profile) (tm : Mode) (i : Int) (y : Dec) (hy : Dom y)
-    (hi : I128_MIN < i ∧ i ≤ I128_MAX) (hy0 : y.coeff ≠ 0) :
+    (hi : I128_MIN ≤ i ∧ i ≤ I128_MAX) (hy0 : y.coeff ≠ 0) :
     Spec.allowedChecked (Spec.div tm i 0 y.coeff y.nfrac) (outOptPair (divIntDec prof tm i y)) = true := by
   obtain ⟨b, q⟩ := y
   simp only at hy0
@@ -194,13 +204,22 @@ theorem div_int_dec_spec (hw : C04.WideDiv) (prof : Profile) (tm : Mode) (i : In
     · simp [h1, ha0, Spec.div, C02.isOne_eq, Spec.allowedChecked]
     · simp only [h1, decide_false, Bool.false_eq_true, if_false]
       rw [spec_div_tail tm i 0 b q hy0 ha0 h1]
-      exact divCore_spec hw prof tm i 0 b q hi ⟨Int.le_of_lt hy.1, hy.2.1⟩ hy0 (by omega) hy.2.2
+      exact divCore_spec_full hw prof tm i 0 b q hi ⟨Int.le_of_lt hy.1, hy.2.1⟩ hy0 (by omega) hy.2.2 (fun h => by omega)
 
 /-! ### non-vacuity -/
 example : div Profile.dev .heven ⟨1, 0⟩ ⟨3, 0⟩ = .ok ⟨333333333333333333, 18⟩ := by decide
 example : div Profile.dev .heven ⟨10, 1⟩ ⟨4, 0⟩ = .ok ⟨25, 2⟩ := by decide                      -- trailing zeros removed
 example : div Profile.dev .heven ⟨1, 0⟩ ⟨0, 5⟩ = .panic .divzero ∧ checkedDiv Profile.dev .heven ⟨1, 0⟩ ⟨0, 5⟩ = .ok none := by
   decide
+-- the dividend `i128::MIN` (an integer operand): the quotient `2^127` by `-1` does not fit — `None`, never the `i128::MIN / -1` panic
+example : divIntDec Profile.dev .heven I128_MIN ⟨-1, 0⟩ = .ok none ∧
+    Spec.allowedChecked (Spec.div .heven I128_MIN 0 (-1) 0) (outOptPair (divIntDec Profile.dev .heven I128_MIN ⟨-1, 0⟩)) = true := by
+  decide
+example : divIntDec Profile.release .heven I128_MIN ⟨-10000000000000000000, 0⟩ = .ok (some ⟨17014118346046923173168730371588410573, 18⟩) ∧
+    Spec.allowedChecked (Spec.div .heven I128_MIN 0 (-10000000000000000000) 0)
+      (outOptPair (divIntDec Profile.release .heven I128_MIN ⟨-10000000000000000000, 0⟩)) = true := by
+  decide
+example : divIntDec Profile.dev .heven I128_MIN ⟨I128_MIN + 1, 0⟩ = .ok (some ⟨1, 0⟩) := by decide
 
 /-! ### translated kernels
 The Lean definitions `Gen.K.*` are regenerated from the Rust source on every run by `tools/fpkernels.py` (expression-level
